@@ -1,3 +1,5 @@
+from io import StringIO
+
 from ._lammps_writeTABLE import writePotentials as lmp_writePotentials
 from ._dlpoly_writeTABLE import writePotentials as dlpoly_writePotentials
 
@@ -125,8 +127,12 @@ class GULP_PairTabulation(PairTabulation_AbstractBase):
 
     :param fp: File object into which data should be written."""
     
+    # Build the whole table before touching fp so that a failed evaluation
+    # cannot leave a truncated (but readable) spline behind.
+    outputbuilder = StringIO()
     for pot in self.potentials:
-      self._write_pot(pot, fp)
+      self._write_pot(pot, outputbuilder)
+    fp.write(outputbuilder.getvalue())
 
   def _write_pot(self, pot, fp):
     header_template = u"{speciesA} {speciesB} {cutoff}\n"
